@@ -406,6 +406,28 @@ func TestC18(t *testing.T) {
 		}
 		rep.Class("any/one-object-for-several-parameter-types")
 	}
+	// an interface-typed parameter: a pointer and its pointee (and a pointer to that pointer) are three different values,
+	// whatever they lead to in the end
+	if shard == 0 {
+		iv, sv, fv := 5, "s", f1
+		piv := &iv
+		slv := []int{1, 2}
+		depth := [][]interface{}{{iv, &iv, &piv}, {sv, &sv}, {S{A: 1}, &S{A: 1}}, {slv, &slv}, {fv, &fv}}
+		ifT := reflect.TypeOf((*interface{})(nil)).Elem()
+		for _, chain := range depth {
+			for i, x := range chain {
+				for j, a := range chain {
+					got, perr := evalExpr(arg.Equals(x), ifT, a)
+					rep.Eval(1)
+					if perr != nil || got != (i == j) {
+						rep.Violate("C18/equals-wrong", fmt.Sprintf("interface parameter: Equals(%T)(%T) - pointer depth %d against %d of the same innermost value - answers %v (%v), want %v", x, a, i, j, got, perr, i == j),
+							map[string]interface{}{"x": fmt.Sprintf("%T", x), "a": fmt.Sprintf("%T", a)})
+					}
+				}
+			}
+		}
+		rep.Class("equals/pointer-depth-in-interface-parameter")
+	}
 	// interface domains: interface{} holding values of every other domain (same dynamic type on both sides)
 	nd := len(ds)
 	ifaceT := reflect.TypeOf((*interface{})(nil)).Elem()
